@@ -40,8 +40,14 @@ def main(argv=None):
                 return 1
             if isinstance(case, dict) and 'task_index' in case and hasattr(mod, 'tasks'):
                 ts = mod.tasks(case['tier'], case['seed'])
-                acc = core.safe_task(mod.run_task, prop, case['tier'], case['seed'])(
-                    (case['task_index'], ts[case['task_index']]))
+                fn = core.safe_task(mod.run_task, prop, case['tier'], case['seed'])
+                if case.get('worker_sequence'):
+                    n = min(core.NWORKERS, max(1, len(ts)))
+                    acc = core.Acc()
+                    for i in range(case['task_index'] % n, case['task_index'] + 1, n):
+                        acc.merge(fn((i, ts[i])))
+                else:
+                    acc = fn((case['task_index'], ts[case['task_index']]))
             else:
                 acc = mod.replay_case(case)
             if acc.violations:
@@ -64,13 +70,33 @@ def main(argv=None):
                 acc.merge(r)
             extra = {'tasks': len(tasks)}
 
+        def worker_sequence(seq):
+            """re-run, in a fresh forked process, every task the worker that owned seq['task_index'] had run up to
+            and including it (static partition: task i belongs to worker i mod n)"""
+            if not hasattr(mod, 'tasks'):
+                return None
+            ts = mod.tasks(seq['tier'], seq['seed'])
+            n = min(core.NWORKERS, max(1, len(ts)))
+            idxs = list(range(seq['task_index'] % n, seq['task_index'] + 1, n))
+            fn = core.safe_task(mod.run_task, prop, seq['tier'], seq['seed'])
+
+            def run_all(_):
+                acc = core.Acc()
+                for i in idxs:
+                    acc.merge(fn((i, ts[i])))
+                return acc
+            return core.pmap(run_all, [0, 1], nworkers=2)[0]
+
         def replay(case):
+            if isinstance(case, dict) and case.get('worker_sequence'):
+                return worker_sequence(case)
             if isinstance(case, dict) and 'task_index' in case and hasattr(mod, 'tasks'):
                 ts = mod.tasks(case['tier'], case['seed'])
                 return core.safe_task(mod.run_task, prop, case['tier'], case['seed'])(
                     (case['task_index'], ts[case['task_index']]))
             return mod.replay_case(case)
-        return core.finish(mod, args.tier, seed, acc, desc, t0, replay_fn=replay, extra_cov=extra)
+        return core.finish(mod, args.tier, seed, acc, desc, t0, replay_fn=replay, extra_cov=extra,
+                           sequence_fn=worker_sequence)
     except core.TaskTimeout:
         print('VIOLATION property=%s replay=%s' % (prop, args.replay))
         print('  sig=%s.no_termination observed=the replayed case did not finish within the CPU limit' % prop.lower())
